@@ -87,6 +87,12 @@ def main(tier):
             if not same and len(witnesses) < 12:
                 witnesses.append({"kind": "ast_equal", "a": enc(base), "b": enc(v),
                                   "why": "a trivia variant of a family program does not parse to the same AST"})
+    from vf.props import glue
+    try:
+        gfind, gok, grun = glue.analyse()
+        witnesses += glue.witnesses_for(PROP, gfind)
+    except common.Inconclusive as e:
+        rep.inconc(str(e))
     seen = set()
     for w in witnesses:
         if len(rep.violations) >= 6:
